@@ -437,6 +437,11 @@ def run(ctx: Context) -> None:
                 extra_ = sorted(t_ for t_, pol_ in g if not _explained(t_, pol_))
                 if extra_:
                     no_fill = False
+                # the on-disk type is read under its own key
+                import re as _re8
+                if not any(isinstance(c_, ast.Call) and (dotted(c_.func) or '').endswith('numpy.dtype') and c_.args
+                           and _re8.search(r"encoding\w*(\.get\('dtype'[,)]|\['dtype'\])", norm_text(fflow.resolve(c_.args[0]))) for c_ in ast.walk(ff.node)):
+                    no_fill = False
                 if kind_ok and no_fill:
                     packed = n
         third = sorted(rets, key=lambda r: r.lineno)[-1] if rets else None
@@ -464,6 +469,7 @@ from ..variants import V  # noqa: E402
 _M = 'src/emsarray/masking.py'
 _U = 'src/emsarray/conventions/ugrid.py'
 VARIANTS = [
+    V('C08', 'on-disk-type-read-under-another-key', 'src/emsarray/masking.py', "    encoded_dtype = data_array.encoding.get('dtype')\n", "    encoded_dtype = data_array.encoding.get('dtyp')\n", 'R08.6'),
     V('C08', 'packed-refusal-only-for-scaled', 'src/emsarray/masking.py', "        encoded_dtype is not None\n        and numpy.dtype(encoded_dtype).kind in 'iub'", "        encoded_dtype is not None\n        and 'scale_factor' in data_array.encoding\n        and numpy.dtype(encoded_dtype).kind in 'iub'", 'R08.6'),
     V('C08', 'packed-without-fill-gets-nan', _M, "        and numpy.dtype(encoded_dtype).kind in 'iub'\n        and data_array.encoding.get('_FillValue') is None\n", "        and numpy.dtype(encoded_dtype).kind in 'iub'\n        and data_array.encoding.get('_FillValue') is not None\n", 'R08.6'),
     V('C08', 'packed-none-marker-counts-as-fill', _M, "        and data_array.encoding.get('_FillValue') is None\n        and data_array.encoding.get('missing_value') is None\n", "        and '_FillValue' not in data_array.encoding\n        and 'missing_value' not in data_array.encoding\n", 'R08.6'),
